@@ -163,7 +163,7 @@ def _c07(tier, seed):
 PROPS["C07"] = {
     "level": "translation_validation",
     "programs": 3,
-    "files": ["src/raft/filestore/raftdata.rs", "src/raft/store/mod.rs", "src/config/core.rs", "src/common/sequence_utils.rs"],
+    "files": ["src/raft/filestore/raftdata.rs", "src/raft/store/mod.rs", "src/config/core.rs", "src/common/sequence_utils.rs", "src/mcp/core.rs", "src/mcp/model/mcp.rs", "src/mcp/model/tools.rs", "src/mcp/utils.rs"],
     "smt": _c07,
     "trusted_base": ["rs2smt parser + lenient symbolic evaluator (/verif/rs2smt)", "z3 5.1.0 (equality of first-order terms with uninterpreted symbols)"],
     "assumptions": [
@@ -172,8 +172,11 @@ PROPS["C07"] = {
         "what the receiving actors do with equal messages is outside (equal messages to the same single-threaded actor in the same order give equal state) - except the config actor: "
         "s07_config_component_paths runs two ConfigActor replicas from source, the leader taking history id / table id from its own SimpleSequence::next_state (batch size 2), both applying the committed "
         "ConfigRaftCmd; GET, history, index and the history-id sequence point agree after every one of 3 (thorough: 4) requests",
+        "s07_mcp_component_paths: two McpManager replicas from source (core.rs, model/mcp.rs, model/tools.rs, utils.rs), one applying the log one by one, one restarting behind a symbolic prefix by log replay or from the "
+        "component's snapshot (records carry the McpServerDo / McpToolSpecDo objects; generated code and serde_json outside) and then LoadCompleted; histories of 3 (thorough: 4) requests over AddServer / UpdateServer / "
+        "PublishCurrentServer / RemoveServer / UpdateToolSpec / RemoveToolSpec; callers' guarantees assumed: no two servers hold one unique key, tool-spec versions are fresh, servers name existing versions",
     ],
-    "outside": "ordering between different actors' mailboxes on the follower path; the handlers of the components other than the config actor (table, namespace, sequence, cache, MCP, naming)",
+    "outside": "ordering between different actors' mailboxes on the follower path; the handlers of the table, namespace, sequence, cache and naming components (one implementation each, no rebuild step at start-up); MCP servers that name tool-spec versions which do not exist",
     "explanation": "three dispatch programs compared per request variant as first-order terms",
 }
 
@@ -257,7 +260,7 @@ PROPS["C19"] = {
         "(harness k19_1_seqgroup_any_order, kept in the source, not registered) but it is an assumption about the transport that cannot be replayed against real code",
         "config history ids: a publish is issued by the leader, committed, and applied on both replicas before the next step; leadership moves only between such steps",
     ],
-    "outside": "the SequenceManager actor's per-key caches on top of SeqGroup (K19.1 drives SeqGroup by its protocol); the raft transport between a node and the leader's table",
+    "outside": "fetch completions of one node out of issue order (whether the raft client can reorder them is an environment assumption); the raft transport between a node and the leader's table",
 }
 PROPS["C05"] = {
     "level": "model_checking",
@@ -313,6 +316,15 @@ def _c19_smt(tier, seed):
             if nv["outcome"] != "passed":
                 ob.update({"verdict": "inconclusive", "message": "the obligation is discharged but a real SequenceDbManager actor breaks it on a sampled history: %s" % nv["message"]})
     res["obligations"].append(ob)
+    # the nodes' SequenceManagers in front of the table
+    from rs2smt import c19mgr
+    mob = c19mgr.run(tier, seed)
+    if mob.get("verdict") == "violation" and not os.environ.get("VERIF_NO_NATIVE"):
+        from lib import native
+        path = native.write_replay("C19", "c19", "model", [], {"engine": "smt", "mode": "model-only", "obligation": mob["harness"], "message": mob["message"], "model": mob.get("counterexample")})
+        mob["replay_path"] = path
+        mob["replay"] = {"path": path, "outcome": "model-only", "message": "schedule of client requests, fetch completions and self-sent FillRange deliveries on two nodes (the native actor's mailbox order cannot be steered)"}
+    res["obligations"].append(mob)
     return res
 
 
@@ -335,6 +347,9 @@ PROPS["C09"] = {
 PROPS["C19"]["smt"] = _c19_smt
 PROPS["C19"]["assumptions"].append("s19_6: SequenceDbManager's handlers (NextId, NextRange, SetId, RemoveId, snapshot build / load) from source over every history of 4 (thorough: 5) committed requests on two keys, "
                                    "steps symbolic in 1..2^32; id_to_bin / bin_to_id_result the identity (k05_2_id_bin); requests of several nodes are one committed sequence (raft orders them)")
+PROPS["C19"]["assumptions"].append("s19_7: Handler<SequenceRequest> (a ResponseActFuture: prologue at delivery, raft request + handle_result later) and SequenceManager::{do_next_id, async_handle, get_next_range, handle_result} from source on two nodes "
+                                   "in front of the real SequenceDbManager handler; range step 2; every schedule of 7 (thorough: 9) steps over client requests, completions of a node's oldest outstanding fetch (per node in issue order, as K19.1) and deliveries of "
+                                   "self-sent FillRange messages, then a drain closure (everything outstanding completes, 8 sequential requests per node); ids pairwise distinct, and on one node a request made after an answer gets a larger id")
 PROPS["C19"]["assumptions"].append("s19_5: ConfigActor::set_config is evaluated from its source (rs2smt) over every history of 3 operations; a publish carrying a history table id must leave "
                                    "the replica's SimpleSequence at or above that id")
 
@@ -438,7 +453,7 @@ PROPS["C01"]["kani"] = []
 PROPS["C01"]["smt"] = _c01
 PROPS["C01"]["trusted_base"] = PROPS["C05"]["trusted_base"][:1] + ["z3 5.1.0"]
 PROPS["C01"]["files"] = list(PROPS["C01"].get("files", [])) + ["src/raft/filestore/raftapply.rs"]
-PROPS["C01"]["outside"] = "the snapshot / log handlers of the table (users), sequence, cache and naming components (the config component's round trip, the namespace registry's and the MCP record order are in); the prost codecs of the record values; RaftLogManager's Load implementation"
+PROPS["C01"]["outside"] = "the snapshot records of the cache component (observation O-cache) and the log-replay handlers of the table / naming / sequence components (the sequence table's snapshot round trip is decided under C19 s19_6, the MCP component's under C07 s07_mcp_component_paths); the prost codecs of the record values; RaftLogManager's Load implementation"
 PROPS["C01"]["assumptions"] = [
     "s01_2: the start-up chain of StateApplyManager is evaluated from source; index / snapshot / log managers and the data handler are recording sinks with symbolic answers "
     "(catalogue with 0 or 1 snapshot ending at E >= 1, last-applied index A arbitrary); actor futures run to completion at the call",
